@@ -3,9 +3,10 @@ import os
 import re
 import framework as fw
 import c20_opts   # round 6: to_nsq main loop end-to-end leg + option surface (sub-builder `relay`)
+import c20_redirect   # audit round 7, C3 (builder tools2): nsq_to_http and redirects, real binary
 
-TIE = ["Nsq.Tie.ToolsSplit", "Nsq.Tie.ToolsRelay"] + c20_opts.TIE
-PROPS = ["Nsq.Props.C20", "Nsq.Props.C20GiveUp"] + c20_opts.PROPS
+TIE = ["Nsq.Tie.ToolsSplit", "Nsq.Tie.ToolsRelay"] + c20_opts.TIE + c20_redirect.TIE
+PROPS = ["Nsq.Props.C20", "Nsq.Props.C20GiveUp"] + c20_opts.PROPS + c20_redirect.PROPS
 CORPUS = os.path.join(fw.ROOT, "corpus", "C20")
 F5_KEY = "to_nsq-unterminated-final-record"
 
@@ -179,6 +180,8 @@ def run(ctx):
     gen_ok, _ = ctx.gen("e8_relay")
     ctx.gen(c20_opts.SPEC)
     c20_opts.declare(ctx)
+    ctx.gen(c20_redirect.SPEC)
+    c20_redirect.declare(ctx)
     built = []
     for mod in TIE + PROPS:
         ok, log = ctx.lean_build([mod])
@@ -240,13 +243,14 @@ def run(ctx):
         else:
             run_relay(ctx, b, "TestVerifN2NCorr", "n2n", corr_broken, ctx.budget(720, 7200))
             c20_opts.opts_leg(ctx, b, "TestVerifN2NOpts", "n2n_opts", corr_broken)
-        b = ctx.go_test_binary("apps/nsq_to_http", ["e8/n2h_test.go", "e8/n2h_opts_test.go", "e8/stub_nsqd.go"], "e8n2h", pkgname="main")
+        b = ctx.go_test_binary("apps/nsq_to_http", ["e8/n2h_test.go", "e8/n2h_opts_test.go", "e8/n2h_redirect_test.go", "e8/stub_nsqd.go"], "e8n2h", pkgname="main")
         if not b:
             ctx.broken_ties.append("harness e8/n2h_test.go does not compile against the current tree")
         else:
             run_relay(ctx, b, "TestVerifN2HCorr", "n2h", corr_broken, ctx.budget(1800, 18000))
             n2h_tool = c20_opts.build_tool(ctx, "apps/nsq_to_http", "nsq_to_http_real")
             c20_opts.opts_leg(ctx, b, "TestVerifN2HOpts", "n2h_opts", corr_broken, env={"VF_E8_N2H_BIN": n2h_tool or ""})
+            c20_redirect.leg(ctx, b, n2h_tool, corr_broken)   # audit round 7, C3
         if b:
             giveup(ctx, b, corr_broken)
     if (ctx.broken_ties or corr_broken) and not ctx.violations:
